@@ -39,17 +39,17 @@ fuzz_target!(|data: &[u8]| {
   let lat = lat.max(-half_pi).min(half_pi);
   let pos = Pos::new(lon, lat, "fuzz");
   let mut rec = Rec::new();
-  let c01 = hpxv::props::c01::Case { depth, pos: pos.clone() };
-  if let Err(v) = hpxv::props::c01::check_hash(&c01, &mut rec) {
-    panic!("C01 violation: {}/{}: {}", v.check, v.kind, v.detail);
+  use hpxv::engine::{fuzz_verdict, fuzz_wants};
+  if fuzz_wants("C01") {
+    fuzz_verdict("C01", hpxv::props::c01::check_hash(&hpxv::props::c01::Case { depth, pos: pos.clone() }, &mut rec));
   }
-  if let Err(v) = hpxv::props::c02::check(&hpxv::props::c02::Case { pos: pos.clone() }, &mut rec) {
-    panic!("C02 violation: {}/{}: {}", v.check, v.kind, v.detail);
+  if fuzz_wants("C02") {
+    fuzz_verdict("C02", hpxv::props::c02::check(&hpxv::props::c02::Case { pos: pos.clone() }, &mut rec));
   }
-  if let Err(v) = hpxv::props::c03::check_pos(&hpxv::props::c03::PosCase { depth, pos: pos.clone() }, &mut rec) {
-    panic!("C03 violation: {}/{}: {}", v.check, v.kind, v.detail);
+  if fuzz_wants("C03") {
+    fuzz_verdict("C03", hpxv::props::c03::check_pos(&hpxv::props::c03::PosCase { depth, pos: pos.clone() }, &mut rec));
   }
-  if let Err(v) = hpxv::props::c19::check(&hpxv::props::c19::Case { depth, pos }, &mut rec) {
-    panic!("C19 violation: {}/{}: {}", v.check, v.kind, v.detail);
+  if fuzz_wants("C19") {
+    fuzz_verdict("C19", hpxv::props::c19::check(&hpxv::props::c19::Case { depth, pos }, &mut rec));
   }
 });
